@@ -65,8 +65,12 @@ def run_obligation(mod, tier, idx, ob, hard_timeout):
             res = {'verdict': 'inconclusive(hard-timeout)', 'paths': 0,
                    'failures': [], 'errors': []}
         else:
-            res = {'verdict': 'harness-error', 'paths': 0, 'failures': [],
-                   'errors': [{'message': f'worker exit {rc}', 'trace': err}]}
+            # a crashed worker decides nothing: inconclusive, never a pass;
+            # the run as a whole is a harness error only if most workers
+            # crashed (see main)
+            res = {'verdict': 'inconclusive(worker-crash)', 'paths': 0,
+                   'failures': [], 'errors': [],
+                   'crash': {'message': f'worker exit {rc}', 'trace': err}}
     res['wall_total_s'] = round(time.time() - t0, 2)
     return res
 
@@ -156,6 +160,7 @@ def main(argv=None):
 
     known = [k for k in load_known() if k['property'] == pid]
     violations, known_hits, harness_errors, inconclusive = [], [], [], []
+    crashes = []
     ob_report = []
     tot = {'paths': 0, 'ok': 0, 'skipped': 0, 'unknown': 0, 'validated': 0,
            'solver_s': 0.0, 'solver_queries': 0, 'cpu_s': 0.0,
@@ -228,6 +233,9 @@ def main(argv=None):
                     {'obligation': ob['name'],
                      'message': f'vacuous: marks never reached {missing}'})
                 entry['verdict'] = 'harness-error(vacuous)'
+        if r.get('crash'):
+            entry['crash'] = r['crash']
+            crashes.append({'obligation': ob['name'], **r['crash']})
         if entry['verdict'].startswith('inconclusive'):
             inconclusive.append(ob['name'])
         ob_report.append(entry)
@@ -241,6 +249,8 @@ def main(argv=None):
             known_hits.append(k)
             print(f"KNOWN-FINDING: property={pid} {k['id']}: {k['what']}")
 
+    if crashes and len(crashes) * 2 > len(sel):
+        harness_errors.extend(crashes[:3])
     wall = round(time.time() - t0, 2)
     confirmed = sum(1 for e in ob_report if e['verdict'] == 'confirmed')
     exhaustive = (confirmed == len(ob_report) and not args.only)
@@ -281,6 +291,7 @@ def main(argv=None):
             'violations': violations,
             'known_findings_reproduced': [k['id'] for k in known_hits],
             'harness_errors': harness_errors,
+            'worker_crashes': crashes[:5],
             'partial_run_filter': args.only or None,
         },
         'assumptions': getattr(m, 'ASSUMPTIONS', []) + [
